@@ -389,3 +389,25 @@ CHECKS["C11"] = {
         {"name": "exchanges", "run": "^TestC11Exchanges$", "kind": "rapid", "checks": {"quick": 3000, "thorough": 60000}, "shards": {"quick": 8, "thorough": 16}},
     ],
 }
+
+CHECKS["C10"] = {
+    "pkg": "props/c10",
+    "level": "exploration",
+    "rule": "A history plan drawn up front by rapid: MaxConns 1..4; MaxConnWaitTimeout in {0, 30 ms, 300 ms}; 1..6 goroutines x 1..6 calls of the real HostClient.Do; per call: method (GET/PUT retryable, POST not), 40 ms read timeout or none, context live / cancelled before / cancelled 5 ms into the call, a delay of 0..3 ms before the call, and the fault of the exchange that serves it "
+            "{ok, ok + Connection: close, ok then silent close, close before first byte, close mid-header, close mid-body, stall 130 ms (past the read timeout), 100-continue then ok}; per dial {ok, error, 15 ms slow}. Connections are in-memory pipes (with TCP-like write semantics) served by scripted peer goroutines that parse requests with the strict reader and answer by request id. "
+            "Non-trivial = >= 2 goroutines contending for fewer connections than goroutines with >= 1 fault or cancellation; distinct by FNV-64 of the plan.",
+    "assumptions": [
+        "schedules are sampled by real-time perturbation, not enumerated; rapid cannot shrink a schedule-dependent failure, the full history is printed instead",
+        "timeouts are asserted as 'returns within T + 2 s' (pure scheduling slack); conservation is polled for up to 3 s before it counts as a leak",
+        "stale waiter-queue entries are swept by one final clean request before the queue is required to be empty (the queue is cleaned lazily by design)",
+        "a call made with an already cancelled context may fail or succeed",
+    ],
+    "level_text": "Random concurrent histories against history invariants: every successful call got the response to its own request id; a peer never receives a second request before answering the first, nor any request on a connection that carried Connection: close or a client-side timeout; open connections <= MaxConns at every dial and in ConnPoolState; a POST is received at most once; calls with a read timeout return; at quiescence PendingRequests()==0, counted connections == pooled, dialed == closed + pooled, no waiter queued.",
+    "level_note": "Sampled schedules on a 16-core machine (thorough tier also under the race detector); the peer and pipe model are part of the trusted base.",
+    "technique": "property-based testing of concurrent histories (rapid-generated plans, fault injection by a scripted peer) against history invariants",
+    "nontrivial_floor": 20,
+    "units": [
+        {"name": "histories", "run": "^TestC10Histories$", "kind": "rapid", "checks": {"quick": 640, "thorough": 16000}, "shards": {"quick": 16, "thorough": 16}, "shrinktime": "30s"},
+        {"name": "histories-race", "run": "^TestC10Histories$", "kind": "rapid", "race": True, "tiers": ["thorough"], "checks": {"thorough": 1600}, "shards": {"thorough": 8}, "shrinktime": "30s"},
+    ],
+}
